@@ -69,9 +69,22 @@ static std::string runOne(const std::string &proto, const std::vector<std::strin
   t->onConnect([&](SessionId s, const TransportAddress &) { addAnn(s); tr.add(vf::Ev("Connect").i("s", (long long)s).i("g", gauge())); });
   t->onData([&](SessionId s, iora::core::BufferView d, std::chrono::steady_clock::time_point)
             { tr.add(vf::Ev("Data").i("s", (long long)s).i("n", (long long)d.size()).i("g", gauge())); });
-  t->onClose([&](SessionId s, const TransportErrorInfo &) { tr.add(vf::Ev("Close").i("s", (long long)s).i("g", gauge())); });
+  std::atomic<int> reconnects{0};
+  std::atomic<int> reconnectPort{0};
+  t->onClose(
+    [&](SessionId s, const TransportErrorInfo &)
+    {
+      tr.add(vf::Ev("Close").i("s", (long long)s).i("g", gauge()));
+      // reconnect-on-close handler (armed by the op reconnect:<n>): a connect issued from inside the close callback
+      if (reconnects.load() > 0 && reconnects.fetch_sub(1) > 0)
+      {
+        auto r = t->connect("127.0.0.1", (std::uint16_t)reconnectPort.load(), TlsMode::None);
+        tr.add(vf::Ev("ConnRet").i("s", r.isOk() ? (long long)r.value() : 0).b("ok", r.isOk()).b("incb", true));
+      }
+    });
   if (!t->start().isOk()) return tr.text() + "{\"e\":\"SetupFailed\"}\n";
   std::uint16_t port = 0;
+  ListenerId lid = 0;
   std::map<int, int> peers;
   bool stopped = false;
   auto settle = [](int ms) { std::this_thread::sleep_for(std::chrono::milliseconds(ms)); };
@@ -83,6 +96,7 @@ static std::string runOne(const std::string &proto, const std::vector<std::strin
     {
       auto lr = t->addListener("127.0.0.1", 0, TlsMode::None);
       if (!lr.isOk()) return tr.text() + "{\"e\":\"SetupFailed\"}\n";
+      lid = lr.value();
       port = t->getListenerAddress(lr.value()).port;
     }
     else if (op == "peer")
@@ -152,6 +166,25 @@ static std::string runOne(const std::string &proto, const std::vector<std::strin
       tr.add(vf::Ev("ConnRet").i("s", r.isOk() ? (long long)r.value() : 0).b("ok", r.isOk()));
       settle(80);
     }
+    else if (op == "reconnect")
+    {
+      reconnectPort = port ? port : 9;
+      reconnects = atoi(f[1].c_str());
+    }
+    else if (op == "via")
+    {
+      // UDP: connectViaListener to the address of raw peer k (a second session on a peer that may already have one)
+      int k = atoi(f[1].c_str());
+      sockaddr_in sa{};
+      socklen_t sl = sizeof sa;
+      getsockname(peers[k], (sockaddr *)&sa, &sl);
+      auto r = t->connectViaListener(lid, "127.0.0.1", ntohs(sa.sin_port));
+      tr.add(vf::Ev("ConnRet").i("s", r.isOk() ? (long long)r.value() : 0).b("ok", r.isOk()));
+      settle(60);
+      tr.add(vf::Ev("Gauge").i("g", gauge()));
+    }
+    else if (op == "gauge")
+      tr.add(vf::Ev("Gauge").i("g", gauge()));
     else if (op == "wait")
       settle(atoi(f[1].c_str()));
     else if (op == "stop")
